@@ -12,6 +12,7 @@ OP_LE_EXTENDED_CREATE_CONNECTION = 0x2043
 OP_CREATE_CONNECTION = 0x0405
 OP_DISCONNECT = 0x0406
 OP_CREATE_CONNECTION_CANCEL = 0x0408
+OP_ACCEPT_CONNECTION_REQUEST = 0x0409
 OP_REMOTE_NAME_REQUEST = 0x0419
 OP_REMOTE_NAME_REQUEST_CANCEL = 0x041A
 OP_READ_REMOTE_SUPPORTED_FEATURES = 0x041B
@@ -42,7 +43,9 @@ def proc_keys(cmd: bytes):
     p = cmd[4:]
     if op in (OP_LE_CREATE_CONNECTION, OP_LE_EXTENDED_CREATE_CONNECTION):
         return ["lecon"]  # one LE connection can be pending per controller
-    if op == OP_CREATE_CONNECTION:
+    if op in (OP_CREATE_CONNECTION, OP_ACCEPT_CONNECTION_REQUEST):
+        # 7.1.5 / 7.1.8: Command Status, then Connection Complete for that BD_ADDR on the local host - whichever
+        # end of the page the controller is on (for the acceptor also when the role switch it asked for is refused)
         return ["con:" + _addr(p, 0)]
     if op == OP_DISCONNECT:
         return [f"disc:{_h(p, 0):04x}"]
